@@ -421,6 +421,11 @@ func decodeInto[T any](ctype string, body []byte) (v T, ok bool, perr string) {
 			return v, false, ""
 		}
 	case "application/msgpack":
+		// like DecodeValid: skip over the value first (also keeps THIS process from allocating
+		// for a forged array header)
+		if err := msgpack.NewDecoder(bytes.NewReader(body)).Skip(); err != nil {
+			return v, false, ""
+		}
 		dec := msgpack.NewDecoder(bytes.NewReader(body))
 		dec.SetCustomStructTag("json")
 		if err := dec.Decode(&v); err != nil {
@@ -945,7 +950,7 @@ func (rn *runner) judge(req request, ep, ctype, mutKind, mutPath, key, hline str
 			return -1
 		}
 		// no answer although the process lives: a hang or a closed connection
-		rn.fail(fmt.Sprintf("no-response:%s", ep), fmt.Sprintf("no HTTP answer for %s %s: %v", req.method, req.path, resp.err), rn.replayFor(key, req, hline))
+		rn.fail(fmt.Sprintf("no-response:%s%s", hugeHeader(req), ep), fmt.Sprintf("no HTTP answer for %s %s: %v", req.method, req.path, resp.err), rn.replayFor(key, req, hline))
 		rn.statusCt["no-response"]++
 		rn.restart()
 		return -1
@@ -997,6 +1002,19 @@ func (rn *runner) judge(req request, ep, ctype, mutKind, mutPath, key, hline str
 		fmt.Fprintf(rn.replays, "%d\t%s\n", rn.o.N, strings.Join(rn.replayFor(key, req, ""), "\x1f"))
 	}
 	return st
+}
+
+// a MessagePack body with an array32 / map32 header announcing more than 10^7 elements
+func hugeHeader(r request) string {
+	if r.ctype != "application/msgpack" {
+		return ""
+	}
+	for i := 0; i+4 < len(r.body); i++ {
+		if (r.body[i] == 0xdd || r.body[i] == 0xdf) && (uint32(r.body[i+1])<<24|uint32(r.body[i+2])<<16|uint32(r.body[i+3])<<8|uint32(r.body[i+4])) > 10000000 {
+			return "msgpack-huge-length-header:"
+		}
+	}
+	return ""
 }
 
 func errClass(msg string) string {
